@@ -58,6 +58,32 @@ func serve(stream []byte, frag bool, pokeCodes []byte, r *ev.Run, abrupt ...bool
 		res.err = err
 		return res
 	}
+	// the underlying agent answers requests it does not know (the relayed ones) with replies of every shape,
+	// chosen by the request bytes so that a stream is reproducible: failure, empty frame, arbitrary bytes
+	ag.SetPlan(func(_ int, req []byte) wire.Action {
+		if len(req) == 0 {
+			return wire.Action{Kind: wire.Honest}
+		}
+		switch req[0] {
+		case 1, 11, 13, 17, 18, 19, 22, 23, 25, 27:
+			return wire.Action{Kind: wire.Honest}
+		}
+		h := 0
+		for _, b := range req {
+			h = h*131 + int(b)
+		}
+		switch (h & 0x7fffffff) % 4 {
+		case 0:
+			return wire.Action{Kind: wire.Custom, Reply: []byte{}}
+		case 1:
+			rep := make([]byte, 1+(h&0x3ff))
+			for i := range rep {
+				rep[i] = byte(h >> uint(i%24))
+			}
+			return wire.Action{Kind: wire.Custom, Reply: rep, Fragment: h&1 == 0}
+		}
+		return wire.Action{Kind: wire.Honest}
+	})
 	srv, err := yubiagent.NewServer(sock, true)
 	if err != nil {
 		res.panicked = "server construction: " + err.Error()
